@@ -297,6 +297,8 @@ func checkC14(c *Check) {
 	if !requireModel(c, "C14.R1", m, "hw.") {
 		return
 	}
+	// what a check writes into its answer reaches only the user agent of that check
+	responseFreshPerCheck(c, "C14.R2", R)
 	type sink struct {
 		v     ssa.Value
 		what  string
